@@ -309,9 +309,15 @@ def check_model(R, xml, tags, case, P):
     d = mj.MjData(m)
     mjxrepo.random_state(R, rng, m, d)
     if "state" in case["parts"]:
-        check_state_api(R, m, mx, d, rng, P, base, case["nrandom"])
+        try:
+            check_state_api(R, m, mx, d, rng, P, base, case["nrandom"])
+        except Exception as e:   # the state API must not raise for a valid signature on an accepted model
+            _viol(P, "state-api-raises:%s" % type(e).__name__, base, error=repr(e)[:300])
     if "make" in case["parts"]:
-        check_make_data(R, m, mx, P, base)
+        try:
+            check_make_data(R, m, mx, P, base)
+        except Exception as e:
+            _viol(P, "make_data-or-put_data-raises:%s" % type(e).__name__, base, error=repr(e)[:300])
     if "roundtrip" in case["parts"]:
         for label in ("forward", "step"):
             d1 = mj.MjData(m)
